@@ -124,6 +124,8 @@ func (in *Interp) exec(st *State, fr *Frame, instr ssa.Instruction) []Alt {
 			in.jump(st, fr, fr.Block.Succs[1])
 			return nil
 		}
+		// (no symbolic decision below this point is unbounded: model-forked loops
+		// are limited by the models themselves)
 		// if-conversion: a triangle or diamond whose arms are empty blocks that
 		// rejoin at once is evaluated with ite instead of forking
 		if in.ifConvert(st, fr, c) {
